@@ -152,7 +152,10 @@ func OraclePosition(tr *Trace) ([]Finding, int) {
 				}
 			}
 			for vb := range final.Seq {
-				if !assigned[vb] {
+				// the file store hands out every entry its file holds, also those of vBuckets that are assigned to another member
+				// by now: such an entry is listed with its stored value, it was not created by an acknowledgement (the
+				// acknowledgement-side clauses of OracleRange apply to it all the same)
+				if !assigned[vb] && !(tr.Spec != nil && tr.Spec.Backend == "file") {
 					fs = append(fs, Finding{"C04", "range", "C04/range/api-foreign-vb", fmt.Sprintf("/states/offset lists vb %d which is not in the assigned range", vb)})
 				}
 			}
@@ -422,8 +425,12 @@ func c04Spec(rng *rand.Rand, i int) (*SessSpec, string) {
 		sp.FirstInfo = [2]int{1, 1}
 		sp.RebalanceDelayMs = 60 + rng.Intn(80)
 		sp.PNow, sp.PDefer = 0, 1
+		hold := "BRE"
+		if i%16 == 13 {
+			hold = "ASS" // ... or from inside the AfterStreamStop callback itself (a batching consumer that flushes when told the stream stopped)
+		}
 		sp.Steps = append(sp.Steps, Step{Op: "barrier"}, Step{Op: "ack", Sel: "newest", N: 2 + rng.Intn(4)}, Step{Op: "commit"},
-			Step{Op: "holdeh", Sel: "BRE"}, Step{Op: "membership", N: 1, VB: 2}, Step{Op: "waitheld", Sel: "BRE"},
+			Step{Op: "holdeh", Sel: hold}, Step{Op: "membership", N: 1, VB: 2}, Step{Op: "waitheld", Sel: hold},
 			Step{Op: "ack", Sel: []string{"oldest", "random"}[rng.Intn(2)], N: 2 + rng.Intn(6)})
 		if rng.Intn(2) == 0 {
 			sp.Steps = append(sp.Steps, Step{Op: "commit"})
@@ -490,6 +497,24 @@ func init() {
 				sp.Steps = append(sp.Steps, Step{Op: "barrier"}, Step{Op: "ack", Sel: "all"}, Step{Op: "commitold"}, Step{Op: "read"}, Step{Op: "check"})
 				out = append(out, drv.Scenario{Kind: "old-context", Seed: seed, Params: mustJSON(sp), TimeoutS: 120, Solo: true})
 			}
+			// a rebalance that moves the member to another range of the SAME size (1/2 -> 2/2): acknowledgements in the new range
+			// move the position, late ones for the old range are refused
+			mr := rand.New(rand.NewSource(seed*79 + 9))
+			for j := 0; j < n/20; j++ {
+				sp := &SessSpec{NumVB: 2 * (1 + mr.Intn(3)), Nodes: 1, AckSeed: mr.Int63(), Backlog: map[int][][]ItemSpec{}, Backend: []string{"mem", "cb", "file"}[j%3], API: true,
+					Membership: "dynamic", FirstInfo: [2]int{1 + j%2, 2}, PNow: 0, PDefer: 1}
+				o := &HistOpts{NumVB: sp.NumVB, PSystem: 0.05, PSeqAdv: 0.1, MaxItems: 4}
+				ctr := 0
+				for vb := 0; vb < sp.NumVB; vb++ {
+					sp.Backlog[vb] = append(sp.Backlog[vb], genSnap(mr, o, &ctr))
+				}
+				sp.Steps = []Step{{Op: "barrier"}, {Op: "ack", Sel: "newest", N: 1 + mr.Intn(2)}, {Op: "commit"}, {Op: "membership", N: 2 - j%2, VB: 2}, {Op: "waitrebalance", N: 1}, {Op: "barrier"}}
+				for vb := 0; vb < sp.NumVB; vb++ {
+					sp.Steps = append(sp.Steps, Step{Op: "append", VB: vb, Items: genSnap(mr, o, &ctr)})
+				}
+				sp.Steps = append(sp.Steps, Step{Op: "barrier"}, Step{Op: "ackpar", Sel: "random"}, Step{Op: "commit"}, Step{Op: "barrier"}, Step{Op: "read"}, Step{Op: "check"})
+				out = append(out, drv.Scenario{Kind: "moved-range", Seed: seed, Params: mustJSON(sp), TimeoutS: 120, Solo: true})
+			}
 			return out
 		},
 		Run: func(sc drv.Scenario) drv.Result {
@@ -499,7 +524,7 @@ func init() {
 			}
 			tr := RunSession(&sp)
 			fs, lin := OraclePosition(tr)
-			if sc.Kind == "range" {
+			if sc.Kind == "range" || sc.Kind == "moved-range" {
 				fs = append(fs, OracleRange(tr)...)
 			}
 			// non-trivial
